@@ -68,6 +68,7 @@ func (tr *Tr) havocLog(st *State) {
 	}
 	tr.assume(f.Forall([]*Term{k}, f.Implies(f.And(f.ILe(f.IntC(0), k), f.ILt(k, oldLen)), f.And(eqs...)), pats...), "event log is append-only")
 	tr.set(st, "wcount", f.Fresh("wcount", ArrS(S64, S64)))
+	tr.set(st, "rcount", f.Fresh("rcount", ArrS(S64, S64)))
 	e := tr.get(st, "epoch")
 	ne := f.Fresh("epoch", S64)
 	tr.assume(f.And(f.ULe(e, ne), f.ULt(ne, f.BVu(64, 1<<62))), "sync epoch is monotone")
@@ -84,7 +85,11 @@ func (tr *Tr) havocState(st *State, why string) {
 	allocBefore := tr.get(st, "alloc")
 	defer func() { tr.keepImmutableFields(st, oldHeap, allocBefore) }()
 	for _, k := range heapKeys {
-		tr.set(st, heapComp(k), f.Fresh("Hhavoc"+k, tr.compSort(heapComp(k))))
+		nh := f.Fresh("Hhavoc"+k, tr.compSort(heapComp(k)))
+		for _, reg := range tr.privateRegs {
+			nh = f.Store(nh, reg, f.Select(oldHeap[k], reg))
+		}
+		tr.set(st, heapComp(k), nh)
 	}
 	for name := range st.C {
 		if strings.HasPrefix(name, "M.") || name == "locks" {
@@ -600,8 +605,27 @@ func (tr *Tr) invoke(fr *Frame, site ssa.Instruction, c *ssa.CallCommon, rt type
 		p := args[0]
 		tr.havocRegionKeys(fr.st, p[0], []string{"8"})
 		nv, n, e := nerr(p, false)
-		tr.logEvent(fr.st, evIn, dev, z, n, nil, nil)
+		rc := tr.get(fr.st, "rcount")
+		tr.logEvent(fr.st, evIn, dev, f.Select(rc, dev), n, nil, nil)
+		tr.set(fr.st, "rcount", f.Store(rc, dev, f.Add(f.Select(rc, dev), n)))
 		tr.setEventResult(fr.st, n, e[0])
+		if tr.usesStream() {
+			// the reader delivers a fixed byte sequence stream(dev, 0..streamlen(dev)): the bytes of this Read are the next n of it
+			pos0 := f.Select(rc, dev)
+			inner := tr.inner(fr.st, "8", p[0])
+			q := f.BoundVar("q", S64)
+			tr.assume(f.Forall([]*Term{q}, f.Implies(f.And(f.SLe(pos0, q), f.SLt(q, f.Add(pos0, n))),
+				f.Eq(f.Select(inner, f.Add(p[1], f.Sub(q, pos0))), f.App("stream", S8, dev, q))), []*Term{f.App("stream", S8, dev, q)}),
+				"io.Reader.Read delivers the next n bytes of the reader's stream")
+			sl := f.App("streamlen", S64, dev)
+			conj := []*Term{f.SLe(z, pos0), f.SLe(f.Add(pos0, n), sl), f.SLe(sl, f.BVu(64, 1<<60))}
+			if eof := tr.ioEOF(); eof != nil {
+				conj = append(conj, f.Implies(f.And(f.Eq(e[0], eof[0]), f.Eq(e[1], eof[1])), f.Eq(f.Add(pos0, n), sl)))
+				conj = append(conj, f.Implies(f.And(f.Eq(f.Add(pos0, n), sl), f.Eq(n, z), f.SLt(z, p[2])), f.Neq(e[0], z)))
+			}
+			tr.assume(f.And(conj...), "io.Reader.Read: never past the end of the stream; io.EOF only at the end; at the end an empty read of a non-empty buffer reports an error")
+			tr.trust("io.Reader (sequential): delivers consecutive bytes of one fixed stream, io.EOF exactly at its end")
+		}
 		tr.trust("io.Reader.Read: 0 <= n <= len(p), only p is written")
 		return append(nv, e...)
 	case name == "ReadAt" && len(c.Args) == 2 && byteSliceArg(0):
@@ -656,6 +680,17 @@ func (tr *Tr) invoke(fr *Frame, site ssa.Instruction, c *ssa.CallCommon, rt type
 		tr.effect(fr, site, "writable")
 		tr.trust("backend.Storage.Writable: error when the backend is read-only (proved for file.rawBackend and SubStorage separately); result writes to the same device")
 		return append(w, e...)
+	case name == "Open" && len(c.Args) == 1 && sig.Results().Len() == 2 && !tr.repoInterface(c.Value.Type()) && isIface(sig.Results().At(0).Type()):
+		// fs.FS.Open: every successful call returns a new open file (its own identity, its own read position)
+		e := retErr()
+		reg := tr.allocRegion(fr.st)
+		tid := f.Fresh("tid_Open", S64)
+		okc := f.Eq(e[0], z)
+		tr.assume(f.Implies(okc, f.Neq(tid, z)), "Open: non-nil file on success")
+		tr.havocLog(fr.st)
+		tr.trust("fs.FS.Open: a successful call returns a newly opened file, distinct from every file opened before; reads only")
+		tr.assume(f.Implies(f.Not(okc), f.Eq(tid, z)), "Open: nil file on error")
+		return append(Val{tid, reg, z}, e...)
 	case name == "Error" && len(c.Args) == 0:
 		id := f.App("errstr", S64, recv[0], recv[1], recv[2])
 		return tr.strOf(id)
@@ -994,6 +1029,10 @@ func (tr *Tr) calleeEffects(fr *Frame, site ssa.Instruction, fn *ssa.Function, c
 		return
 	}
 	for _, e := range top.contract.Effects {
+		if e == "devwrite" {
+			// forbids direct WriteAt calls in the body; writes of a callee under contract are specified by that contract
+			continue
+		}
 		declared := false
 		for _, ce := range ct.Effects {
 			if ce == e {
@@ -1615,4 +1654,48 @@ func modKeys(t types.Type, e ast.Expr) []string {
 		}
 	}
 	return heapKeys
+}
+
+// usesStream: does the contract of the function under verification speak about stream()/streamlen()?
+func (tr *Tr) usesStream() bool {
+	if tr.streamUse == 0 {
+		tr.streamUse = 1
+		if c := tr.contract; c != nil {
+			var all []Clause
+			all = append(all, c.Requires...)
+			all = append(all, c.Ensures...)
+			all = append(all, c.AtReturn...)
+			for _, l := range c.Loops {
+				all = append(all, l.Invariants...)
+				all = append(all, l.Exits...)
+			}
+			for _, ac := range c.AtCalls {
+				all = append(all, ac.Asserts...)
+			}
+			for _, cl := range all {
+				if strings.Contains(cl.Src, "stream(") || strings.Contains(cl.Src, "streamlen(") {
+					tr.streamUse = 2
+				}
+			}
+		}
+	}
+	return tr.streamUse == 2
+}
+
+func (tr *Tr) ioEOF() Val { return tr.ioGlobal("EOF") }
+
+func (tr *Tr) ioGlobal(name string) Val {
+	pkg := tr.P.prog.ImportedPackage("io")
+	if pkg == nil {
+		return nil
+	}
+	g, ok := pkg.Members[name].(*ssa.Global)
+	if !ok {
+		return nil
+	}
+	v, ok := tr.immutableGlobal(g)
+	if !ok {
+		return nil
+	}
+	return v
 }
